@@ -861,7 +861,7 @@ func (c *Ctx) ghostLog(st *State) *Val {
 		return g
 	}
 	g := &Val{Typ: types.Typ[types.Invalid], L: []*Term{Var("wlog0", ArrSort(BV(64), BV(8))), Var("wlen0", BV(64))}}
-	c.assume(True, And(SLe(Const(64, 0), g.L[1]), SLe(g.L[1], Const(64, 1<<40))))
+	c.assume(True, And(SLe(Const(64, 0), g.L[1]), SLe(g.L[1], Const(64, 1<<40)), ULe(g.L[1], Const(64, 1<<40))))
 	st.ghost["wlog"] = g
 	return g
 }
